@@ -33,12 +33,28 @@ def parseOffered (j : Json) : Except String Offered := do
 def parsePool (j : Json) : Except String Pool := do
   let vecs ← mapM' Ledger.parseVec (← fldArr j "workers")
   let mut p : Pool := ⟨vecs.map Worker.ofVec, []⟩
-  for r in ← fldArr j "running" do
-    let strats ← mapM' Ledger.parseStrat (← fldArr r "strats")
-    let s ← Ledger.parseStrat (← fld r "s")
-    match p.placeTask (← fldNat r "lid") strats (some s) (some (← fldNat r "w")) with
-    | (p', .ok true) => p := p'
-    | _ => throw "running task does not fit the worker it is said to run on"
+  -- the cluster's construction history: the really placed tasks in placement order; `gone` = tasks that ran on the
+  -- worker earlier and were removed since (they leave holes in the per-instance ledger)
+  match fldOpt j "history" with
+  | some hj =>
+    for r in ← hj.getArr? do
+      if (← fldStr r "op") == "remove" then
+        match p.removeTask (← fldNat r "lid") with
+        | (p', .ok) => p := p'
+        | _ => throw "earlier task could not be removed"
+      else
+        let strats ← mapM' Ledger.parseStrat (← fldArr r "strats")
+        let s ← Ledger.parseStrat (← fld r "s")
+        match p.placeTask (← fldNat r "lid") strats (some s) (some (← fldNat r "w")) with
+        | (p', .ok true) => p := p'
+        | _ => throw "task of the construction history does not fit the worker it is said to run on"
+  | none =>
+    for r in ← fldArr j "running" do
+      let strats ← mapM' Ledger.parseStrat (← fldArr r "strats")
+      let s ← Ledger.parseStrat (← fld r "s")
+      match p.placeTask (← fldNat r "lid") strats (some s) (some (← fldNat r "w")) with
+      | (p', .ok true) => p := p'
+      | _ => throw "running task does not fit the worker it is said to run on"
   -- work profiles whose load is in progress on a worker (`Worker.load_profile` called, not yet stepped)
   match fldOpt j "profiles" with
   | none => pure ()
